@@ -18,6 +18,8 @@ type FuncResult struct {
 	Obligations []*Obligation
 	Vacuity     string // query: the requires clauses must be satisfiable
 	VacuityStatus string // sat/unknown (fine), unsat (contradictory requires)
+	EndQuery      string
+	EndStatus     string // unsat: the whole assumption set of the function is contradictory
 	Assumptions []string
 	Props       []string
 }
@@ -149,6 +151,7 @@ func (e *Engine) verifyFunc(fn *ssa.Function) (res *FuncResult) {
 	if c != nil && len(c.clauses("requires")) > 0 {
 		res.Vacuity = x.vacuityQuery()
 	}
+	res.EndQuery = x.endQuery()
 	for a := range x.usedAssumptions {
 		res.Assumptions = append(res.Assumptions, a)
 	}
